@@ -29,6 +29,7 @@ RULE = (
     " with the same symbol/section/function names, or an unrelated module"
     " of any ISA) whose facets (here: bytes) must come out unchanged;"
     " label-only contents for another section are an expected refusal."
+    " 1% of the modules have 30-89 code blocks."
 )
 ASSUMPTIONS = [
     "vocabulary byte table (tools/selftest_vocab.py) matches LLVM-MC and capstone",
@@ -39,7 +40,7 @@ BUDGET = {"quick": (6000, 40), "thorough": (250000, 540)}
 REQUIRED_COUNTERS = ["applies", "bytes_compared", "markers_checked"]
 
 def gen_case(rng, tier, index):
-    return rwbase.gen_case(rng, tier, index, mips_p=0.08)
+    return rwbase.gen_case(rng, tier, index, mips_p=0.08, big_p=0.01)
 
 
 def run_case(case):
